@@ -31,3 +31,4 @@ func FreshF64(lo, hi float64) float64              { return lo }
 func Advance()                                     {}
 func PickStr(label string, a, b string) string     { return a }
 func IsNonNilPointer(v any) bool                   { return false }
+func At(pos string)                                {}
